@@ -163,7 +163,7 @@ func typeKey(t gopacket.LayerType) string { return strings.ReplaceAll(t.String()
 
 func c06Roundtrip(c *vlib.Ctx) {
 	cp := getCorpus()
-	perType := c.Pick(150, 3000)
+	perType := c.Pick(400, 20000)
 	idx := 0
 	for ti, t := range cp.Types {
 		if ti%c.NBatch != c.Batch {
@@ -303,8 +303,11 @@ func fieldsSurvive(x, l any) (string, string) {
 		if derivedName.MatchString(last) {
 			continue
 		}
-		if _, isDNS := x.(*layers.DNS); isDNS && last == ".Data" {
+		if _, isDNS := x.(*layers.DNS); isDNS && (last == ".Data" || last == ".TXT") {
 			continue // raw RDATA as found on the wire (with compression pointers); the serializer writes from the parsed fields
+		}
+		if _, isIP6 := x.(*layers.IPv6); isIP6 && strings.HasPrefix(path, ".HopByHop") {
+			continue // the IPv6 layer's view of the hop-by-hop header, which is compared as the layer of its own that it also is
 		}
 		if vb, ok := mb[path]; ok && vb != val {
 			return sig.StripIdx(path), fmt.Sprintf("%s (%s | %s)", path, trunc300(val), trunc300(vb))
@@ -379,7 +382,7 @@ func sameStack(want []string, q gopacket.Packet, frameLen int) bool {
 }
 
 func c06Stacks(c *vlib.Ctx) {
-	n := c.Pick(2000, 40000)
+	n := c.Pick(3000, 100000)
 	chunk := 100
 	for k := 0; k*chunk < n; k++ {
 		if !c.Begin(k) {
